@@ -28,7 +28,8 @@ fn key_types(tier: Tier) -> Vec<KeyType> {
     ];
     if tier.is_thorough() {
         v.extend([
-            KeyType { name: "bigint", sql: "BIGINT", lits: ["1", "5000000000"], numeric: true },
+            // typed literals: a VALUES list takes the types of its first row (1 would make the column INT)
+            KeyType { name: "bigint", sql: "BIGINT", lits: ["CAST(1 AS BIGINT)", "CAST(5000000000 AS BIGINT)"], numeric: true },
             KeyType { name: "double-zero", sql: "DOUBLE", lits: ["CAST(0.0 AS DOUBLE)", "CAST('-0.0' AS DOUBLE)"], numeric: false },
             KeyType { name: "double", sql: "DOUBLE", lits: ["CAST(1.5 AS DOUBLE)", "CAST(2.5 AS DOUBLE)"], numeric: false },
             KeyType { name: "bool", sql: "BOOLEAN", lits: ["true", "false"], numeric: false },
